@@ -1,4 +1,5 @@
 import FalconModel.SharedMemo
+import FalconModel.LazyLock
 /-! smdriver - the shared-memo model `Sm` against the real `functools.lru_cache`-wrapped functions of falcon, the
     header-name kwarg cache of `falcon/asgi/request.py`, and the state inventory of `harness/props/c19.py`.
 
@@ -15,7 +16,13 @@ import FalconModel.SharedMemo
       -> ok:<theorem that covers the kind>   if the kind is one the model knows and the detector shape may have that kind
          unclassified:<file:qualname>        if the kind is UNLISTED / unknown
          shape-mismatch:<file:qualname>      if e.g. a memo decorator is classified as configuration
-         stale:<file:qualname>               if the shape is GONE (a table row / per-request class no longer in the source)  -/
+         stale:<file:qualname>               if the shape is GONE (a table row / per-request class no longer in the source)
+      a shape with the form `lazy-init:lock` (a lock created on first use) is admitted by no proved kind: `Ll.lazy_lock_witness`
+
+    lzlock <eager 0|1> <threads k> <schedule: comma list of thread ids | ->
+      -> t0=<pc> .. t(k-1)=<pc> acq=<thread>:<lock>,.. nlocks=<locks created> maxcrit=<max. threads inside at once> agree=<1|0>
+      replay of the lock-creation model `Ll` (LazyLock.lean): eager = the lock exists from the start (lock 1), lazy = the cell is empty.
+      One schedule entry = one step of that thread: read the cell / Lock() / store / acquire (no move if taken) / release.  -/
 open Sm
 
 abbrev S := St String String
@@ -78,7 +85,8 @@ def kindTheorem : String → Option String
 
 /-- which kinds a detector shape may be given -/
 def shapeAllows (shape kind : String) : Bool :=
-  if shape == "class:exists" then kind == "per-request"
+  if (shape.splitOn "lazy-init:lock").length > 1 then kind == "OTHER"
+  else if shape == "class:exists" then kind == "per-request"
   else if shape == "class-attr:class-literal" then kind == "read-only"
   else if shape.startsWith "memo:" then kind.startsWith "memo-of-pure-function" || kind == "per-request"
   else if shape.startsWith "default-arg:" then
@@ -88,6 +96,19 @@ def shapeAllows (shape kind : String) : Bool :=
     kind == "read-only" || kind == "configuration-written-before-serving-only" || kind == "lock-protected" ||
       kind == "lazily-initialised-idempotent" || kind == "OTHER"
   else kind != "read-only" && !(kind.startsWith "memo-of-pure-function")
+
+def llPc : Ll.Pc → String
+  | .start => "start" | .sawNone => "sawNone" | .made l => s!"made:{l}" | .ref l => s!"ref:{l}" | .crit l => s!"crit:{l}" | .done => "done"
+
+/-- step-by-step replay of `Ll`: (state, acquisitions in order, max. number of threads inside the critical section at once) -/
+def llReplay (k : Nat) : Ll.St → List (Nat × Nat) → Nat → List Nat → Ll.St × List (Nat × Nat) × Nat
+  | s, acq, mx, [] => (s, acq, mx)
+  | s, acq, mx, i :: rest =>
+    let s' := Ll.run s i
+    let acq := match s.pcs i, s'.pcs i with
+      | .ref _, .crit l => acq ++ [(i, l)]
+      | _, _ => acq
+    llReplay k s' acq (max mx (Ll.inCrit s' k)) rest
 
 def handle (line : String) : String :=
   match line.trimAscii.toString.splitOn " " with
@@ -103,6 +124,17 @@ def handle (line : String) : String :=
     let agree := same s s2 && same s s3
     (if out.isEmpty then "-" else " ".intercalate out) ++
       s!" size={s.table.length} hits={s.hits} misses={s.misses} agree=" ++ (if agree then "1" else "0")
+  | ["lzlock", eager, k, sch] =>
+    let k := k.toNat!
+    let sched := if sch == "-" then [] else (sch.splitOn ",").map String.toNat!
+    let s0 : Ll.St := if eager == "1" then Ll.init 1 else {}
+    let (s, acq, mx) := llReplay k s0 [] 0 sched
+    let s2 := Ll.exec s0 sched
+    let ths := List.range k
+    let agree := ths.all (fun i => s.pcs i == s2.pcs i) && s.cell == s2.cell && s.nlocks == s2.nlocks && s.held == s2.held
+    " ".intercalate (ths.map fun i => s!"t{i}=" ++ llPc (s2.pcs i)) ++ " acq=" ++
+      (if acq.isEmpty then "-" else ",".intercalate (acq.map fun (i, l) => s!"{i}:{l}")) ++
+      s!" nlocks={s2.nlocks} maxcrit={mx} agree=" ++ (if agree then "1" else "0")
   | ["inv", item, shape, kind] =>
     if shape == "GONE" then s!"stale:{item}" else
     match kindTheorem kind with
